@@ -18,6 +18,25 @@ Lemma d06_R : B2R d_0_6 = F2R (Float radix2 5404319552844595 (-53)).
 Proof. reflexivity. Qed.
 Lemma d02_R : B2R d_0_2 = F2R (Float radix2 7205759403792794 (-55)).
 Proof. reflexivity. Qed.
+Lemma d100_R : B2R d_100 = F2R (Float radix2 7036874417766400 (-46)).
+Proof. reflexivity. Qed.
+Lemma d1_R : B2R d_1 = F2R (Float radix2 4503599627370496 (-52)).
+Proof. reflexivity. Qed.
+Lemma d100_fin : is_finite d_100 = true. Proof. reflexivity. Qed.
+Lemma d1_fin : is_finite d_1 = true. Proof. reflexivity. Qed.
+Lemma d100_val : B2R d_100 = 100.
+Proof. rewrite d100_R. unfold F2R. simpl. lra. Qed.
+Lemma d1_val : B2R d_1 = 1.
+Proof. rewrite d1_R. unfold F2R. simpl. lra. Qed.
+
+(* the regenerated expressions are the ones the proof below is about (they stop being so when
+   dss.cc changes a literal or the shape of the expression) *)
+Lemma gen_ratio_fact : forall s,
+  gen_ratio s = std_min d_0_6 (F64.add d_0_2 (F64.div d_100 (F64.add s d_100))).
+Proof. reflexivity. Qed.
+Lemma gen_target_size_fact : forall s r, gen_target_size s r = std_max d_1 (F64.mul s r).
+Proof. reflexivity. Qed.
+
 Lemma d06_fin : is_finite d_0_6 = true. Proof. reflexivity. Qed.
 Lemma d02_fin : is_finite d_0_2 = true. Proof. reflexivity. Qed.
 
@@ -166,9 +185,7 @@ Proof.
   intros s Hs. change (2 ^ 53)%Z with 9007199254740992%Z in Hs.
   assert (Hs' : (0 <= s < 2 ^ 53)%Z) by (change (2 ^ 53)%Z with 9007199254740992%Z; lia).
   destruct (of_Z_ok s Hs') as [sdR sdF].
-  destruct (of_Z_ok 100 ltac:(change (2 ^ 53)%Z with 9007199254740992%Z; lia)) as [cR cF].
-  destruct (of_Z_ok 1 ltac:(change (2 ^ 53)%Z with 9007199254740992%Z; lia)) as [oR oF].
-  fold d_100 in cR, cF. fold d_1 in oR, oF.
+  pose proof d100_val as cR. pose proof d100_fin as cF. pose proof d1_val as oR. pose proof d1_fin as oF.
   set (S := IZR s) in *.
   assert (HS3 : 3 <= S) by (apply IZR_le; lia).
   assert (HS53 : S < 9007199254740992) by (apply IZR_lt; lia).
@@ -217,7 +234,8 @@ Proof.
     - split; [exact oF|]. rewrite oR, minus_IZR. fold S. lra. }
   destruct Hm as [mF mb].
   destruct (trunc_bounds _ 1 (s - 1) mF mb ltac:(lia)) as (z & Hz & Hzb).
-  unfold tsz_f64, target_f64. fold t1 t2 t3 r y. rewrite Hz. lia.
+  unfold tsz_f64, target_f64. cbv zeta. rewrite gen_ratio_fact, gen_target_size_fact.
+  fold t1 t2 t3 r y. rewrite Hz. lia.
 Qed.
 
 Theorem tsz_f64_in_range : forall s : Z, (2 <= s < 2 ^ 53)%Z -> (1 <= tsz_f64 s < s)%Z.
